@@ -4,7 +4,7 @@
    the responses) the request is accepted exactly when acc is empty or p is the latest accepted
    id; when accepted the response carries the id supplied by the id generator (non-nil and new
    by the oracle assumption, see C02_fresh_id_is_new); when rejected it names the latest. *)
-From TSS Require Import Seq proofs.Chain proofs.Inv proofs.Agree proofs.Hist proofs.Cas.
+From TSS Require Import Seq proofs.Chain proofs.Inv proofs.Agree proofs.Hist proofs.Cas Http proofs.UrgencyArith proofs.HttpProps proofs.HttpReach proofs.HttpLib.
 Open Scope N_scope.
 
 Theorem C02_add_version_cas : forall k cfg h c p d E,
@@ -56,3 +56,20 @@ Proof.
   intros h c p d E Hor. apply oracle_ok_from_app in Hor. destruct Hor as [_ [Hf _]].
   cbn in Hf. unfold usedp in Hf. cbn in Hf. repeat split; intros H; apply Hf; auto.
 Qed.
+
+(* the same as HTTP clients see it: after ANY HTTP history h (any routes, methods, headers, bodies,
+   clients; refused requests included) a well-formed add-version request of an allowed client with
+   parent p is answered 200 with X-Version-Id = the generated id (and nothing but the snapshot
+   request header besides) exactly when the client has no accepted version yet or p is the latest
+   accepted one, and 409 with X-Parent-Version-Id = the latest accepted id otherwise.  `acc` is the
+   list of versions accepted for c, read off the library view of h (C14_http_history_is_library_history:
+   an accepted version is an add-version request answered 200 with that X-Version-Id). *)
+Theorem C02_http_add_version_cas : forall k cfg allow h c p cs E,
+  cfg_ok cfg -> client_id_header allow (COk c) = inl c -> body_refused cs = false ->
+  let av := mkReq MPost (PAddVersion (IdOk p)) (COk c) CTHistory cs in
+  horacle_ok (h ++ [(av, E)]) ->
+  let acc := accepted c (lib_of allow h) (responses k cfg (lib_of allow h)) in
+  exists r, hresponses k cfg allow (h ++ [(av, E)]) = hresponses k cfg allow h ++ [r] /\
+    (((acc = [] \/ p = latest_of acc) /\ exists xs, r = mkResp 200 (Some (e_fresh E)) None xs None [] true) \/
+     (~ (acc = [] \/ p = latest_of acc) /\ r = mkResp 409 None (Some (latest_of acc)) None None [] true)).
+Proof. exact http_add_version_cas. Qed.
